@@ -147,8 +147,15 @@ def sDelAll (l : List Nat) : List Nat → List Nat
   | [] => l
   | x :: rest => sDelAll (sDel l x) rest
 
-/-- `slices.Sort` on ints -/
-def sortInts (l : List Int) : List Int := l.mergeSort (fun a b => decide (a ≤ b))
+/-- insertion into an ascending list -/
+def insInt (a : Int) : List Int → List Int
+  | [] => [a]
+  | b :: rest => if a ≤ b then a :: b :: rest else b :: insInt a rest
+
+/-- `slices.Sort` on ints (ascending; insertion sort, so that it evaluates by reduction) -/
+def sortInts : List Int → List Int
+  | [] => []
+  | a :: rest => insInt a (sortInts rest)
 
 /-- `slices.Compact`: adjacent duplicates are dropped -/
 def compactAdj : List Int → List Int
@@ -688,6 +695,36 @@ def msgModifySize (w : MW) (m s : Nat) (sz amount : Int) : MW × Option Out :=
         | (w1, some e) => (w1, some (outOfLErr e))
         | (w1, none) => (w1, none)
 
+/-- `signal.verifySizeAmount(amount)`: in the multiplexer, else in the message, else nothing -/
+def sizeVerify (w : MW) (se : SigE) (s : Nat) (z amount : Int) : Except Out Unit :=
+  match se.parentMux with
+  | some x => muxVerifySize w x s z amount
+  | none => match se.parentMsg with
+    | some m => msgVerifySize w m s z amount
+    | none => .ok ()
+
+/-- the dispatch of `signal.modifySize(amount)` after the verification -/
+def sizeModify (w : MW) (se : SigE) (s : Nat) (z amount : Int) : MW × Option Out :=
+  match se.parentMux with
+  | some x => muxModifySize w x s z amount
+  | none => match se.parentMsg with
+    | some m => msgModifySize w m s z amount
+    | none => (w, none)
+
+/-- `ss.typ = typ` -/
+def setLeaf (w : MW) (s : Nat) (n : Int) : MW :=
+  match w.sigs.get s with
+  | some se => { w with sigs := w.sigs.set s { se with kind := .leaf n } }
+  | none => w
+
+/-- `ss.regenerateFilters()`: the top-level layout of the owning message -/
+def regenPanics (w : MW) (pm : Option Nat) : Bool :=
+  match pm with
+  | none => false
+  | some m => match w.msgs.get m with
+    | none => false
+    | some msg => genPanics w msg.layout
+
 /-- `StandardSignal.SetType(typ)` with `typ.size = n` (the type constructor refuses `n ≤ 0`) -/
 def doLeafSize (w : MW) (s : Nat) (n : Int) : MW × Out :=
   match w.sigs.get s with
@@ -699,34 +736,14 @@ def doLeafSize (w : MW) (s : Nat) (n : Int) : MW × Out :=
       if n < 0 then (w, .err .negative)
       else if n = 0 then (w, .err .zero)
       else
-        let amount := n - z
-        let v := match se.parentMux with
-          | some x => muxVerifySize w x s z amount
-          | none => match se.parentMsg with
-            | some m => msgVerifySize w m s z amount
-            | none => .ok ()
-        match v with
+        match sizeVerify w se s z (n - z) with
         | .error o => (w, o)
         | .ok () =>
-          let (w1, r) := match se.parentMux with
-            | some x => muxModifySize w x s z amount
-            | none => match se.parentMsg with
-              | some m => msgModifySize w m s z amount
-              | none => (w, none)
-          match r with
-          | some o => (w1, o)
-          | none =>
-            match w1.sigs.get s with
-            | none => (w1, .ok [])
-            | some se1 =>
-              let w2 : MW := { w1 with sigs := w1.sigs.set s { se1 with kind := .leaf n } }
-              -- `ss.regenerateFilters()`: the top-level layout of the owning message
-              match se1.parentMsg with
-              | none => (w2, .ok [])
-              | some m =>
-                match w2.msgs.get m with
-                | none => (w2, .ok [])
-                | some msg => if genPanics w2 msg.layout then (w2, .panic) else (w2, .ok [])
+          match sizeModify w se s z (n - z) with
+          | (w1, some o) => (w1, o)
+          | (w1, none) =>
+            let w2 := setLeaf w1 s n
+            if regenPanics w2 (parentMsgOf w1 s) then (w2, .panic) else (w2, .ok [])
 
 /-! ### names -/
 
